@@ -287,6 +287,10 @@ class MoveMemrefDims(RewritePattern):
             if isinstance(new_dim_op, affine.MinOp):
                 temp_dim_op = get_constant_value_from_affine_min(new_dim_op)
                 new_dim_op.results[0].replace_all_uses_with(temp_dim_op.results[0])
+                enclosing_loop = find_parent_for_loop(dim_op)
+                if enclosing_loop is not None and not enclosing_loop.is_ancestor(new_dim_op):
+                    # the affine.min sits before the loop and may have earlier uses: define the constant in its place
+                    rewriter.insert_op(temp_dim_op, InsertPoint.before(new_dim_op))
                 new_dim_op = temp_dim_op
             if new_dim_op is not dim_op:
                 dim_op.results[0].replace_all_uses_with(new_dim_op.results[0])
